@@ -95,7 +95,10 @@ var jsStrReplacementTable = []string{
 	'\r': `\r`,
 	// Encode HTML specials as hex so the output can be embedded
 	// in HTML attributes without further encoding.
-	'"':  `\u0022`,
+	'"': `\u0022`,
+	// Encode $ so that "${" cannot open an interpolation when the value is placed
+	// inside a template literal.
+	'$':  `\u0024`,
 	'`':  `\u0060`,
 	'&':  `\u0026`,
 	'\'': `\u0027`,
